@@ -3,7 +3,6 @@
 package main
 
 import (
-	"encoding/json"
 	"fmt"
 	"strconv"
 	"time"
@@ -317,7 +316,7 @@ func c09Run(r *vkit.Run) {
 
 func c09Replay(r *vkit.Run, v vkit.Violation) *vkit.Violation {
 	var in c09Input
-	if err := json.Unmarshal(v.Input, &in); err != nil {
+	if err := vkit.DecodeInput(v, &in); err != nil {
 		r.HarnessError("bad input: %v", err)
 	}
 	return vkit.ReplayOne(r, func() { c09Check(r, in) })
